@@ -23,6 +23,8 @@ import (
 	"io"
 	"log"
 	"net"
+	"os"
+	"os/exec"
 	"sort"
 	"strconv"
 	"strings"
@@ -49,6 +51,7 @@ type opRec struct {
 	begin     int64  // dispatcher step (0 = never seen)
 	end       int64
 	errText   string
+	app       bool // performed by the embedding application outside the dispatcher
 }
 
 var clock atomic.Int64
@@ -109,6 +112,16 @@ func (d *dispLog) hook(name string, args ...interface{}) {
 	d.at[id] = x
 }
 
+func firstLine(s string) string {
+	if i := strings.IndexByte(s, '\n'); i >= 0 {
+		s = s[:i]
+	}
+	if len(s) > 160 {
+		s = s[:160]
+	}
+	return s
+}
+
 func freePort() int {
 	l, err := net.Listen("tcp", "127.0.0.1:0")
 	if err != nil {
@@ -123,6 +136,12 @@ func freePort() int {
 // linearizable decides whether the operations on ONE register (initial value
 // init) have a linearization; ops must be at most 64.
 func linearizable(ops []*opRec, init int) bool {
+	_, ok := linearization(ops, init)
+	return ok
+}
+
+// linearization returns a witness order (indices into ops) if there is one.
+func linearization(ops []*opRec, init int) ([]int, bool) {
 	n := len(ops)
 	if n > 64 {
 		panic("too many operations on one node for the checker")
@@ -136,6 +155,7 @@ func linearizable(ops []*opRec, init int) bool {
 	if n == 64 {
 		full = ^uint64(0)
 	}
+	var order []int
 	var rec func(mask uint64, val int) bool
 	rec = func(mask uint64, val int) bool {
 		if mask == full {
@@ -156,20 +176,23 @@ func linearizable(ops []*opRec, init int) bool {
 			if mask&(1<<uint(i)) != 0 || o.inv > minResp {
 				continue
 			}
+			nv := val
 			if o.write {
-				if rec(mask|1<<uint(i), o.val) {
-					return true
-				}
-			} else if o.val == val {
-				if rec(mask|1<<uint(i), val) {
-					return true
-				}
+				nv = o.val
+			} else if o.val != val {
+				continue
 			}
+			order = append(order, i)
+			if rec(mask|1<<uint(i), nv) {
+				return true
+			}
+			order = order[:len(order)-1]
 		}
 		bad[k] = true
 		return false
 	}
-	return rec(0, init)
+	ok := rec(0, init)
+	return order, ok
 }
 
 // ---------------------------------------------------------------- trace text
@@ -181,10 +204,11 @@ func traceLine(k int, ops []*opRec) string {
 	}
 	var evs []ev
 	for _, o := range ops {
+		kind := map[bool]string{false: "", true: "a"}[o.app]
 		if o.write {
-			evs = append(evs, ev{o.inv, fmt.Sprintf("i:%d:w:%d:%d", o.id, o.node, o.val)})
+			evs = append(evs, ev{o.inv, fmt.Sprintf("i:%d:%sw:%d:%d", o.id, kind, o.node, o.val)})
 		} else {
-			evs = append(evs, ev{o.inv, fmt.Sprintf("i:%d:r:%d", o.id, o.node)})
+			evs = append(evs, ev{o.inv, fmt.Sprintf("i:%d:%sr:%d", o.id, kind, o.node)})
 		}
 		if o.begin != 0 {
 			evs = append(evs, ev{o.begin, fmt.Sprintf("d:%d", o.id)})
@@ -219,7 +243,8 @@ func parseTrace(line string) (int, []*opRec, bool) {
 		case "i":
 			o := &opRec{id: id, inv: int64(t + 1), ok: true}
 			o.node, _ = strconv.Atoi(q[3])
-			if q[2] == "w" {
+			o.app = strings.HasPrefix(q[2], "a")
+			if strings.HasSuffix(q[2], "w") {
 				o.write = true
 				o.val, _ = strconv.Atoi(q[4])
 			}
@@ -250,6 +275,10 @@ func check(r *h.Result, d *h.Driver, k int, ops []*opRec, dispOrder []int) {
 	for _, o := range ops {
 		perNode[o.node] = append(perNode[o.node], o)
 	}
+	hasApp := false
+	for _, o := range ops {
+		hasApp = hasApp || o.app
+	}
 	for node, l := range perNode {
 		if len(l) > 64 {
 			r.Notes = append(r.Notes, "history with more than 64 operations on a node skipped by the search")
@@ -264,11 +293,37 @@ func check(r *h.Result, d *h.Driver, k int, ops []*opRec, dispOrder []int) {
 			}
 		}
 		r.Distribution["overlapping-pairs"] += overl
-		if !linearizable(l, 0) {
+		witness, ok := linearization(l, 0)
+		if !ok {
 			r.Fail(line, "", fmt.Sprintf("the history of node %d (%d operations, %d overlapping pairs) has no linearization w.r.t. a register", node, len(l), overl))
-		} else {
-			r.Hit("node-history-linearizable")
+			continue
 		}
+		r.Hit("node-history-linearizable")
+		if hasApp {
+			// tie for histories with application steps: the dispatcher hook does not see those, so the
+			// linearization found above is handed to the model, which must give the observed results
+			var lin, want []string
+			for _, i := range witness {
+				o := l[i]
+				pre := ""
+				if o.app {
+					pre = "a"
+				}
+				if o.write {
+					lin = append(lin, fmt.Sprintf("%sw:%d:%d", pre, o.node, o.val))
+					want = append(want, "ok")
+				} else {
+					lin = append(lin, fmt.Sprintf("%sr:%d", pre, o.node))
+					want = append(want, fmt.Sprintf("v%d", o.val))
+				}
+			}
+			r.Compare(d, "lin "+strconv.Itoa(k)+" "+strings.Join(lin, " "), strings.Join(want, " "))
+		}
+	}
+	if hasApp {
+		r.Hit("history-with-application-steps")
+		r.TracesValidated++
+		return
 	}
 	// ---- tie (a): results equal the register machine run in dispatcher order
 	byID := map[int]*opRec{}
@@ -295,7 +350,53 @@ func check(r *h.Result, d *h.Driver, k int, ops []*opRec, dispOrder []int) {
 	r.TracesValidated++
 }
 
+const sigMapRace = "C34.mapnamespace-setvalue-races-with-read"
+
+// mapRaceChild is the witness of the listed finding, run in a child process because it ends in a
+// fatal runtime error: the application updates a MapNamespace through its documented API
+// (SetValue, which takes the map's lock) while a client reads a key (MapNamespace.Attribute reads
+// the Go map WITHOUT the lock).
+func mapRaceChild() {
+	log.SetOutput(io.Discard)
+	port := freePort()
+	srv := server.New(server.EnableSecurity("None", ua.MessageSecurityModeNone),
+		server.EnableAuthMode(ua.UserTokenTypeAnonymous), server.EndPoint("localhost", port))
+	m := server.NewMapNamespace(srv, "urn:verif:maprace")
+	m.Data["a"] = int32(0)
+	if err := srv.Start(context.Background()); err != nil {
+		fmt.Println("child-error", err)
+		return
+	}
+	ctx := context.Background()
+	c, err := opcua.NewClient(fmt.Sprintf("opc.tcp://localhost:%d", port), opcua.SecurityMode(ua.MessageSecurityModeNone))
+	if err == nil {
+		err = c.Connect(ctx)
+	}
+	if err != nil {
+		fmt.Println("child-error", err)
+		return
+	}
+	go func() {
+		for i := 0; ; i++ {
+			m.SetValue("a", int32(i))
+			m.SetValue(fmt.Sprint("k", i%64), int32(i))
+		}
+	}()
+	id := ua.NewStringNodeID(m.ID(), "a")
+	for t0 := time.Now(); time.Since(t0) < 8*time.Second; {
+		if _, err := c.Read(ctx, &ua.ReadRequest{NodesToRead: []*ua.ReadValueID{{NodeID: id, AttributeID: ua.AttributeIDValue}}}); err != nil {
+			fmt.Println("read-error", err)
+			return
+		}
+	}
+	fmt.Println("survived")
+}
+
 func main() {
+	if os.Getenv("C34_CHILD") == "maprace" {
+		mapRaceChild()
+		return
+	}
 	log.SetOutput(io.Discard)
 	o := h.ParseOpts()
 	r := h.NewResult("C34", o)
@@ -306,7 +407,7 @@ func main() {
 		return
 	}
 	defer d.Close()
-	r.Rule = "case = one concurrent history: 4 real clients (own connection and session) x 16 operations (read / write of the Value attribute; unique array values [id,id], half of the writes with a non-monotone client source timestamp, a quarter of the reads with an IndexRange, MaxAge = operation id) over 3 fresh shared nodes, all events stamped by one atomic logical clock; the merged trace (invocation, hooked dispatcher step, response) must be accepted by Linear.mrun over the attribute service model and the results must equal Access.run in dispatcher order; oracle: exhaustive linearizability search on the client-side history per node; distinct by the whole trace"
+	r.Rule = "case = one concurrent history: 4 real clients (own connection and session) x 16 operations (read / write of the Value attribute; unique array values [id,id], half of the writes with a non-monotone client source timestamp, a quarter of the reads with an IndexRange, MaxAge = operation id) over 3 fresh shared nodes (two nodes of a node namespace, one key of a map namespace), in every second history plus an application goroutine that replaces and reads the values of the two nodes directly (Node.SetAttribute / Node.Value, outside the dispatcher); all events stamped by one atomic logical clock; the merged trace (invocation, hooked dispatcher step, response) must be accepted by Linear.mrun over the attribute service model and the results must equal Access.run in dispatcher order; oracle: exhaustive linearizability search on the client-side history per node; distinct by the whole trace"
 
 	if o.Replay != "" {
 		if k, ops, ok := parseTrace(o.Replay); ok {
@@ -351,16 +452,39 @@ func main() {
 			check(r, d, k, ops, ids)
 		}
 	}
+	// the listed finding about the map namespace (child process: it kills the server)
+	{
+		cmd := exec.Command(os.Args[0])
+		cmd.Env = append(os.Environ(), "C34_CHILD=maprace", "GOMEMLIMIT=1GiB")
+		var out strings.Builder
+		cmd.Stdout, cmd.Stderr = &out, &out
+		done := make(chan error, 1)
+		if err := cmd.Start(); err == nil {
+			go func() { done <- cmd.Wait() }()
+			select {
+			case <-done:
+			case <-time.After(60 * time.Second):
+				cmd.Process.Kill()
+			}
+		}
+		if strings.Contains(out.String(), "concurrent map read and map write") && strings.Contains(out.String(), "MapNamespace).Attribute") {
+			r.Confirm(sigMapRace, "application goroutine calling MapNamespace.SetValue in a loop + one client reading a key: the server process dies with `fatal error: concurrent map read and map write` in MapNamespace.Attribute")
+		} else {
+			r.Notes = append(r.Notes, "map namespace race not reproduced this time: "+firstLine(out.String()))
+		}
+	}
 	rnd := h.NewRand(o.Seed)
 	dl := &dispLog{at: map[int][2]int64{}}
 	var srv *server.Server
 	var ns *server.NodeNameSpace
+	var mapNS *server.MapNamespace
 	var port int
 	for try := 0; try < 5; try++ {
 		port = freePort()
 		srv = server.New(server.EnableSecurity("None", ua.MessageSecurityModeNone),
 			server.EnableAuthMode(ua.UserTokenTypeAnonymous), server.EndPoint("localhost", port))
 		ns = server.NewNodeNameSpace(srv, "urn:verif:linear")
+		mapNS = server.NewMapNamespace(srv, "urn:verif:linear:map")
 		if err = srv.Start(context.Background()); err == nil {
 			break
 		}
@@ -397,11 +521,22 @@ func main() {
 	rounds := o.N(150, 2500)
 	for round := 0; round < rounds && r.InfraError == ""; round++ {
 		// fresh nodes, initial value 0
+		// nodes 0 and 1 live in a node namespace, node 2 is a key of a map namespace (second node kind:
+		// its Attribute / SetAttribute go through the same dispatcher; SetAttribute takes the map's lock)
 		ids := make([]*ua.NodeID, nNodes)
+		nodes := make([]*server.Node, nNodes)
 		for k := range ids {
 			nextNode++
+			if k == 2 {
+				key := fmt.Sprintf("k%d", nextNode)
+				mapNS.Mu.Lock()
+				mapNS.Data[key] = []int32{0, 0}
+				mapNS.Mu.Unlock()
+				ids[k] = ua.NewStringNodeID(mapNS.ID(), key)
+				continue
+			}
 			ids[k] = ua.NewNumericNodeID(ns.ID(), nextNode)
-			ns.AddNode(server.NewVariableNode(ids[k], fmt.Sprintf("n%d", nextNode), []int32{0, 0}))
+			nodes[k] = ns.AddNode(server.NewVariableNode(ids[k], fmt.Sprintf("n%d", nextNode), []int32{0, 0}))
 		}
 		plans := make([][]*opRec, nClients)
 		for c := range plans {
@@ -475,6 +610,47 @@ func main() {
 				}
 			}(c)
 		}
+		// every second round the embedding application works on nodes 0 and 1 at the same time, outside
+		// the dispatcher: node.SetAttribute(Value, …) and node.Value()
+		var appOps []*opRec
+		if round%2 == 1 {
+			for j := 0; j < perClient; j++ {
+				nextOp++
+				op := &opRec{id: nextOp, node: rnd.Intn(2), write: rnd.Chance(50), app: true}
+				if round%4 == 3 {
+					op.node = 0
+				}
+				if op.write {
+					op.val = op.id
+				}
+				appOps = append(appOps, op)
+			}
+			wg.Add(1)
+			go func() {
+				defer wg.Done()
+				<-start
+				for _, op := range appOps {
+					n := nodes[op.node]
+					if op.write {
+						dv := &ua.DataValue{EncodingMask: ua.DataValueValue, Value: ua.MustVariant([]int32{int32(op.val), int32(op.val)})}
+						op.inv = clock.Add(1)
+						err := n.SetAttribute(ua.AttributeIDValue, dv)
+						op.resp = clock.Add(1)
+						op.ok = err == nil
+					} else {
+						op.inv = clock.Add(1)
+						dv := n.Value()
+						op.resp = clock.Add(1)
+						if v, ok := dv.Value.Value().([]int32); ok && len(v) == 2 && v[0] == v[1] {
+							op.ok, op.val = true, int(v[0])
+						}
+					}
+					if j := op.id % 3; j == 0 {
+						time.Sleep(time.Duration(50+op.id%200) * time.Microsecond)
+					}
+				}
+			}()
+		}
 		close(start)
 		wg.Wait()
 		dl.mu.Lock()
@@ -487,6 +663,7 @@ func main() {
 				all = append(all, op)
 			}
 		}
+		all = append(all, appOps...)
 		maxOpen := dl.maxOpn
 		dl.mu.Unlock()
 		for _, op := range all {
@@ -501,7 +678,9 @@ func main() {
 			} else {
 				r.Hit("read")
 			}
-			if op.begin == 0 {
+			if op.app {
+				r.Hit("application-step")
+			} else if op.begin == 0 {
 				r.Hit("never-dispatched")
 			}
 		}
@@ -517,7 +696,7 @@ func main() {
 		}
 	}
 	r.Notes = append(r.Notes, fmt.Sprintf("requests that went through the dispatcher without an operation id (session handling): %d", dl.others))
-	for _, b := range []string{"read", "write", "node-history-linearizable", "overlapping-pairs"} {
+	for _, b := range []string{"read", "write", "node-history-linearizable", "overlapping-pairs", "application-step", "history-with-application-steps"} {
 		if r.Distribution[b] == 0 {
 			r.Unreached = append(r.Unreached, b)
 		}
